@@ -116,6 +116,12 @@ type Net struct {
 	StallWrites int
 	StallMaxMs  int
 	Stalled     time.Duration
+	// SrvNoDeadlines: the server's side of every stream connection is of a kind that does not support
+	// deadlines (SetDeadline, SetReadDeadline and SetWriteDeadline fail and change nothing).
+	SrvNoDeadlines bool
+	// SrvCloseStall: closing the server's side of a stream connection takes up to this much simulated
+	// time (a TLS close_notify that has to be written, a lingering close). Only with CloseYields.
+	SrvCloseStall time.Duration
 
 	K      *kernel.K
 	Stream StreamLink
@@ -549,6 +555,13 @@ func (c *StreamConn) Close() error {
 	hbRelease(&c.tx.hb)
 	if c.n.CloseYields {
 		k.Yield(c.Role+".stream.Close", c.ID)
+		if c.n.SrvCloseStall > 0 && c.Role == "srv" && !c.closed {
+			k.Lock()
+			d := time.Duration(k.Env.Int64N(int64(c.n.SrvCloseStall))) + time.Millisecond
+			k.BumpLocked("fault.close_takes_time")
+			k.Unlock()
+			k.Sleep(c.Role+".stream.Close.stall", d)
+		}
 	}
 	k.Lock()
 	defer k.Unlock()
@@ -674,6 +687,10 @@ func (c *StreamConn) SetDeadline(t time.Time) error {
 	if c.closed {
 		return ErrClosed
 	}
+	if c.n.SrvNoDeadlines && c.Role == "srv" {
+		k.BumpLocked("fault.deadline_not_supported")
+		return ErrNoDeadline
+	}
 	c.rdl, c.wdl = t, t
 	k.EffectLocked("setdl #" + strconv.Itoa(c.ID) + " " + dlClass(t, time.Now()))
 	return nil
@@ -690,6 +707,10 @@ func (c *StreamConn) SetReadDeadline(t time.Time) error {
 	if c.closed {
 		return ErrClosed
 	}
+	if c.n.SrvNoDeadlines && c.Role == "srv" {
+		k.BumpLocked("fault.deadline_not_supported")
+		return ErrNoDeadline
+	}
 	c.rdl = t
 	k.EffectLocked("setrdl #" + strconv.Itoa(c.ID) + " " + dlClass(t, time.Now()))
 	return nil
@@ -702,6 +723,10 @@ func (c *StreamConn) SetWriteDeadline(t time.Time) error {
 	defer k.Unlock()
 	if c.closed {
 		return ErrClosed
+	}
+	if c.n.SrvNoDeadlines && c.Role == "srv" {
+		k.BumpLocked("fault.deadline_not_supported")
+		return ErrNoDeadline
 	}
 	c.wdl = t
 	k.EffectLocked("setwdl #" + strconv.Itoa(c.ID) + " " + dlClass(t, time.Now()))
@@ -899,6 +924,9 @@ type PacketConn struct {
 	Anonymous  bool
 	Unroutable [][]byte
 }
+
+// ErrNoDeadline is what a connection that cannot time out says to SetDeadline and its kin.
+var ErrNoDeadline = errors.New("simnet: set deadline: operation not supported by this connection")
 
 // ErrNoDest is what a datagram socket says to a send without a destination.
 var ErrNoDest = errors.New("simnet: sendto: destination address required")
